@@ -217,7 +217,9 @@ class SqwPixelMetadata(ir.Serializable):
             "version": ir.F64(self.version),
             "full_filename": ir.String(self.full_filename),
             "npix": ir.F64(float(self.npix)),
-            "data_range": ir.Array(self.data_range, ty=ir.TypeTag.f64),
+            "data_range": ir.Array(
+                np.asarray(self.data_range, dtype="float64"), ty=ir.TypeTag.f64
+            ),
         }
 
 
